@@ -8,20 +8,26 @@ Mixes == { <<"prove", "commit", "msm", "codec", "batch", "transcript", "poly", "
 Ks   == IF Tier = "quick" THEN {2, 8} ELSE {2, 4, 8, 32}
 GMPs == IF Tier = "quick" THEN {1, 4, 16} ELSE {1, 2, 4, 16}
 Full == <<"prove", "commit", "msm", "codec", "batch", "transcript", "poly", "ipa">>
-Base == {[k |-> k, gomaxprocs |-> g, envgmp |-> 0, reps |-> 1, calls |-> m] : k \in Ks, g \in GMPs,
+Base == {[k |-> k, gomaxprocs |-> g, envgmp |-> 0, reps |-> 1, fresh |-> FALSE, calls |-> m] : k \in Ks, g \in GMPs,
            m \in (IF Tier = "quick" THEN {Full, <<"prove", "prove", "prove">>, <<"bigprove", "ipa", "bigprove">>} ELSE Mixes \cup {<<"bigprove", "ipa", "bigprove">>, <<"bigprove", "transcript", "codec">>})}
 (* "any number of goroutines": many more callers than processors (4x and 8x NumCPU), on MSM-bound mixes whose calls fan out into worker goroutines themselves *)
-Many == {[k |-> k, gomaxprocs |-> 0, envgmp |-> 0, reps |-> 1, calls |-> m] : k \in (IF Tier = "quick" THEN {64} ELSE {64, 128}),
+Many == {[k |-> k, gomaxprocs |-> 0, envgmp |-> 0, reps |-> 1, fresh |-> FALSE, calls |-> m] : k \in (IF Tier = "quick" THEN {64} ELSE {64, 128}),
                                                                   m \in (IF Tier = "quick" THEN {<<"msm", "commit", "msm", "prove">>} ELSE {<<"msm", "commit", "msm", "prove">>, Full, <<"ipa", "batch", "msm">>})}
 (* processes STARTED with GOMAXPROCS=1 / 2 (package initialisers see that value; runtime.GOMAXPROCS(n) later cannot reproduce it) *)
-EnvCases == {[k |-> k, gomaxprocs |-> 0, envgmp |-> g, reps |-> 1, calls |-> m] : k \in (IF Tier = "quick" THEN {8} ELSE {2, 8, 32}), g \in (IF Tier = "quick" THEN {1} ELSE {1, 2, 4}),
+EnvCases == {[k |-> k, gomaxprocs |-> 0, envgmp |-> g, reps |-> 1, fresh |-> FALSE, calls |-> m] : k \in (IF Tier = "quick" THEN {8} ELSE {2, 8, 32}), g \in (IF Tier = "quick" THEN {1} ELSE {1, 2, 4}),
                                                                        m \in (IF Tier = "quick" THEN {Full} ELSE {Full, <<"msm", "commit", "msm", "prove">>})}
 (* sustained overlap: every goroutine repeats a short list of calls of ONE kind many times, so that two calls of the same kind are inside
    their loops at the same time again and again (pooled or package-level scratch space shows only then) *)
 Kinds == {<<"bigbatch">>, <<"msm", "commit">>, <<"codec", "batch">>, <<"transcript", "poly">>, <<"prove">>, <<"ipa">>, <<"bigprove">>}
-Stress == {[k |-> 16, gomaxprocs |-> g, envgmp |-> 0, reps |-> (IF m \in {<<"prove">>, <<"ipa">>, <<"bigprove">>} THEN (IF Tier = "quick" THEN 6 ELSE 40) ELSE IF Tier = "quick" THEN 200 ELSE 1500), calls |-> m] :
+Stress == {[k |-> 16, gomaxprocs |-> g, envgmp |-> 0, reps |-> (IF m \in {<<"prove">>, <<"ipa">>, <<"bigprove">>} THEN (IF Tier = "quick" THEN 6 ELSE 40) ELSE IF Tier = "quick" THEN 200 ELSE 1500), fresh |-> FALSE, calls |-> m] :
              g \in (IF Tier = "quick" THEN {4} ELSE {1, 2, 4, 16}), m \in Kinds}
-Cases == Base \cup Many \cup EnvCases \cup Stress
+(* first uses: a configuration created for the program, the concurrent pass FIRST, every goroutine starting each position at the same moment on an
+   index / point that no earlier position used (lazily built state is built under contention) *)
+Z20(op) == [i \in 1 .. 20 |-> op]
+FreshCases == {[k |-> k, gomaxprocs |-> g, envgmp |-> 0, reps |-> 1, fresh |-> TRUE, calls |-> m] :
+                 k \in (IF Tier = "quick" THEN {3, 12} ELSE {3, 4, 8, 12, 32}), g \in (IF Tier = "quick" THEN {4, 16} ELSE {2, 4, 16}),
+                 m \in {Z20("dividez"), Z20("provez"), <<"ipaz", "commit", "msm", "provez", "dividez", "ipaz", "batch", "codec", "provez", "dividez">>}}
+Cases == Base \cup Many \cup EnvCases \cup Stress \cup FreshCases
 VARIABLE done
 Init == done = FALSE
 Next == ~done /\ done' = ndJsonSerialize(Out, SetToSeq(Cases))
